@@ -1,7 +1,7 @@
 SPECIFICATION Spec
 CONSTANTS
   MaxSteps = 3
-  Leaves = {"bool","int","int8","int16","int32","int64","uint","uint8","uint16","uint32","uint64","uintptr","float32","float64","string","bytes","MarshalerV","MarshalerP","TextV","TextP","Time","Number","Raw","Rec","RecMap","MutualA","UnmarshalerP","TextUnmarshalerP","Empty","PtrField","Scripted"}
+  Leaves = {"bool","int","int8","int16","int32","int64","uint","uint8","uint16","uint32","uint64","uintptr","float32","float64","string","bytes","MarshalerV","MarshalerP","TextV","TextP","Time","Number","Raw","Rec","RecMap","MutualA","UnmarshalerP","TextUnmarshalerP","Empty","PtrField","Scripted","BothP","BothV"}
   Steps = {"ptr","slice","array1","map_s","iface","struct:plain:alone","struct:omitempty:before-int","embedP"}
 INVARIANTS TypeOK EmbedDiscipline Export
 CHECK_DEADLOCK FALSE
